@@ -148,6 +148,14 @@ func (c c02) sessions(tier string) []c02Case {
 			ops := []sess.Op{{Op: "put", K: "b", V: "x"}, cl, {Op: "open", Cfg: &c2}, {Op: "put", K: "a", V: "I1677721"}, {Op: "put", K: "b", V: "I1677722"}, {Op: "put", K: "c", V: "I1677723"}, {Op: "del", K: "a"}, cl}
 			out = append(out, c02Case{Name: "async-second-session-3x1.6MiB", Mode: mode, Sess: mkDBSession(cfg, ops...)})
 		}
+		for _, mem := range []uint64{90, 1024 * 1024 * 1024} {
+			// the WAL written with direct I/O (block-aligned, zero-padded flushes)
+			cfg := sess.Cfg{Mem: mem, Thresh: 10, Ratio: 0.2, Async: true, Direct: true}
+			c2 := cfg
+			ops := []sess.Op{{Op: "put", K: "a", V: "I1677721"}, {Op: "put", K: "b", V: "x"}, {Op: "put", K: "c", V: "I1677723"}, {Op: "put", K: "b", V: "I1677722"}, {Op: "del", K: "a"}, cl,
+				{Op: "open", Cfg: &c2}, {Op: "put", K: "a", V: "y"}, cl}
+			out = append(out, c02Case{Name: fmt.Sprintf("async-direct-io-wal-mem%d", mem), Mode: mode, Sess: mkDBSession(cfg, ops...)})
+		}
 		{
 			// size-triggered rotation of the WAL file inside one memstore generation: the file limit is 100 x the memstore
 			// size (6.4 MB here, above the 4 MiB buffer); three keys are overwritten until the limit is crossed
